@@ -43,7 +43,7 @@ fn enumerate(tier: Tier) -> Box<dyn Iterator<Item = PathCase>> {
     Box::new(out.into_iter())
 }
 
-fn random_paths(_t: Tier) -> BoxedStrategy<PathCase> {
+pub fn random_paths(_t: Tier) -> BoxedStrategy<PathCase> {
     prop_oneof![
         3 => prop::collection::vec(prop_oneof![3 => prop::sample::select(SEGMENTS.to_vec()).prop_map(String::from), 1 => "[a-z.é ]{0,5}"], 0..7).prop_map(|v| v.join("/")),
         1 => "[a-b./]{0,12}",
@@ -197,7 +197,7 @@ const DEP_ALPHABET: [char; 18] = [':', ':', '[', ']', 'a', 'b', 'z', '/', '.', '
 /// random dependencies: a pattern half from the pools, from the brace grammar, over a small
 /// alphabet of structural characters or from the library's own literals; 0-3 colons; a path half
 /// from the pool or random
-fn dep_random(t: Tier) -> BoxedStrategy<DepCase> {
+pub fn dep_random(t: Tier) -> BoxedStrategy<DepCase> {
     let half = || {
         prop_oneof![
             3 => prop::sample::select(PATS.to_vec()).prop_map(String::from),
@@ -283,11 +283,10 @@ pub fn property() -> Property {
             enumerated_stream("paths-enumerated", "all segment sequences with/without leading and trailing '/'", enumerate, check_path),
             random_stream("paths-random", "random path-like and arbitrary strings", random_paths, |t| t.pick(20_000, 3_000_000), check_path),
             enumerated_stream("depends", "patterns x paths x colon layouts", dep_enumerate, check_dep),
-            random_stream("depends-random", "random pattern halves (pools, brace grammar, small alphabets of structural characters, the library's own literals) x 0-3 colons x path halves", dep_random, |t| t.pick(60_000, 4_000_000), check_dep),
-        ],
+            random_stream("depends-random", "random pattern halves (pools, brace grammar, small alphabets of structural characters, the library's own literals) x 0-3 colons x path halves", dep_random, |t| t.pick(60_000, 4_000_000), check_dep), crate::fuzz::replay_stream()],
         selfcheck: m::selfcheck,
         hang_is_violation: false,
         min_nontrivial_share: 0.05,
-        extra: None,
+        extra: Some(crate::fuzz::extra),
     }
 }
